@@ -629,12 +629,45 @@ class QGen:
 
     def aggregate(self, scope, fuel) -> Tuple[str, str]:
         f = self.f
-        opts = [(4, "count"), (4, "sum"), (2, "agg")]
+        opts = [(4, "count"), (4, "sum"), (3, "agg")]
+        evs_ = self.vars_of(scope, lambda t: isinstance(t, TEvt))
+        flat3 = [(c, ov, m) for c in self.s.colls if not c.singleton for ov in self.s.classes[c.element].methods if ov.kind == "objvec"
+                 for m in self.s.classes[ov.cls].methods if m.kind == "vec"] if (evs_ and getattr(f, "flat_aggregates", True)) else []
+        if flat3:
+            opts.append((2, "flat3"))
         if f.minmax:
             opts.append((2, "minmax"))
         if f.seq2d and not self.noflat:
             opts.append((2, "seqseq"))
         k = self.weighted(opts)
+        if k == "flat3":
+            # an aggregate / First over a sequence flattened over THREE loops (a SelectMany of a SelectMany, chained or nested)
+            c, ov, m = self.pick(flat3)
+            b = self.pick(c.banks)
+            self.uses.append((c.accessor, b))
+            src = f"{self.pick(evs_)[0]}.{c.accessor}({b!r})"
+            names = {n for n, _ in scope}
+            v, w = "fj", "fk"
+            while v in names:
+                v += "j"
+            while w in names or w == v:
+                w += "k"
+            flat = (f"{src}.SelectMany(lambda {v}: {v}.{ov.name}()).SelectMany(lambda {w}: {w}.{m.name}())" if self.chance(1, 2)
+                    else f"{src}.SelectMany(lambda {v}: {v}.{ov.name}().SelectMany(lambda {w}: {w}.{m.name}()))")
+            self.labels.update({"SelectMany-inner", "SelectMany-three-loops", "aggregate-or-First-over-flattened-sequence"})
+            self.nops += 3
+            how = self.pick(["Sum", "Count", "Agg"] + (["First"] if (f.first and not self.safe) else []))
+            if how == "Count":
+                self.labels.add("Count")
+                return (f"{flat}.Count()", "int")
+            if how == "Sum":
+                self.labels.add("Sum")
+                return (f"{flat}.Sum()", m.ctype)
+            if how == "First":
+                self.labels.add("First")
+                return (f"{flat}.First()", m.ctype)
+            self.labels.add("Aggregate")
+            return (f"{flat}.Aggregate(0.5, lambda facc, fv: facc + fv * 2)", "double")
         if k == "seqseq":
             # an aggregate over a sequence whose ELEMENTS are sequences (no flattening): how many there are, how many pass a test, a fold over them
             os_ = self.objseq(scope, 0)
@@ -702,7 +735,7 @@ class QGen:
         seed = self.pick(["0", "1", "0.0", "2.5", "10"])
         seed_kind = "int" if "." not in seed else "double"
         tail = ""
-        if getattr(f, "computed_seed", True) and self.chance(1, 3):
+        if getattr(f, "computed_seed", True) and self.chance(1, 2):
             # a seed that has to be COMPUTED first: a count, a number from the enclosing scope, a conditional
             int_vars = [n for n, t in scope if isinstance(t, TNum) and t.kind == "int"]
             how = self.weighted([(3, "count"), (2, "leaf"), (1, "ifexp")] + ([(4, "intvar")] if int_vars else []))
@@ -723,6 +756,10 @@ class QGen:
                     seed, seed_kind = "1", "int"
             else:
                 seed, seed_kind = f"(1 if {self.boolean(scope, 0)} else 2.5)", "double"
+            if not tail and self.chance(1, 3) and not seed.lstrip("(").startswith("-"):
+                # ... under a unary sign: still a value that has to be computed first
+                seed = self.pick([f"-({seed})", f"-({seed})", f"+({seed})"])
+                self.labels.add("Aggregate-signed-computed-seed")
             self.labels.add("Aggregate-computed-seed")
         body = self.pick([f"{acc} + {v}", f"{acc} + {v} * 2", f"{acc} + 1", f"{acc} * 2 + {v}", f"({acc} if {acc} > {v} else {v})", f"{acc} - {v}"])
         self.labels.add("Aggregate")
